@@ -287,6 +287,7 @@ func isNilOrCallErr(rt *ssa.Return) bool { return len(rt.Results) == 2 }
 // hashInput: v is the digest of some bytes: h := X.New(); h.Write(b); h.Sum(nil)  or  X.Sum(b)[:].
 // Returns the hashed bytes value and the hash package path.
 func hashInput(w *World, fn *ssa.Function, v ssa.Value) (ssa.Value, string, string) {
+	v = origin(v)
 	switch x := v.(type) {
 	case *ssa.Call:
 		if x.Call.IsInvoke() && x.Call.Method.Name() == "Sum" {
